@@ -4,7 +4,8 @@
    Go source on every check).  [A] is any list of flows, [tr] any trace: no bound on flows, nodes, actions,
    runs, steps or resumes. *)
 From Coq Require Import List NArith Bool String.
-From Verif Require Import model.ActionRow gen.ActionResults model.Inspect proofs.InspectProofs.
+From Verif Require Import model.ActionRow gen.ActionResults model.Inspect model.InspectExec.
+From Verif Require Import proofs.InspectProofs proofs.InspectExecProofs.
 Import ListNotations.
 Open Scope N_scope.
 
@@ -125,3 +126,29 @@ Theorem c20_guards_as_in_source : forall s,
   /\ (sv_declares s = true -> decl_guard_in_table s = [["NAME_NONEMPTY"]]%string).
 Proof. exact guards_as_in_source. Qed.
 Print Assumptions c20_guards_as_in_source.
+
+(* ---- the same three clauses for what the EXECUTABLE model engine does (model/InspectExec.v: visit, actions, push
+   of a child flow, wait, resume by msg or wait timeout, routing, return to the parent), for every instantiation of
+   its oracles (which category the tests pick, which outcome an action has, which written references its events
+   carry), every fuel, start flow and resume history — not relative to an acceptor: [exec] computes the trace *)
+Theorem c20_engine_results_covered_or_f16 : forall A pick act touch msg_trigger fuel fid history,
+  forallb valid_flow A = true ->
+  forall fl nc, In (fl, nc) (saved_results (exec A pick act touch msg_trigger fuel fid history)) ->
+  exists f, lookup_flow A fl = Some f /\ (result_covered f nc \/ saved_by_open_ticket f nc).
+Proof. exact engine_results_covered_or_f16. Qed.
+Print Assumptions c20_engine_results_covered_or_f16.
+
+Theorem c20_engine_waiting_exits : forall A pick act touch msg_trigger fuel fid history,
+  forallb valid_flow A = true ->
+  forall fl e, In (fl, e) (resumed_exits (exec A pick act touch msg_trigger fuel fid history)) ->
+  exists f, lookup_flow A fl = Some f /\ In e (waiting_exits f).
+Proof. exact engine_waiting_exits. Qed.
+Print Assumptions c20_engine_waiting_exits.
+
+(* (the engine carries only references written in the node it visits — [touch] filters node_asset_refs — so this
+   clause is the static fact that extraction and de-duplication lose no fixed reference) *)
+Theorem c20_engine_dependencies : forall A pick act touch msg_trigger fuel fid history,
+  forall fl r, In (fl, r) (assets_touched (exec A pick act touch msg_trigger fuel fid history)) ->
+  exists f, lookup_flow A fl = Some f /\ In r (dependencies f) /\ ref_variable r = false.
+Proof. exact engine_dependencies. Qed.
+Print Assumptions c20_engine_dependencies.
